@@ -88,6 +88,16 @@ func (c *Ctx) rowBufCheck(info *types.Info, fd *ast.FuncDecl) int {
 			return true
 		}
 		r, isRangeVal := valOf[info.ObjectOf(j)]
+		if !isRangeVal {
+			// `for k := 0; k < len(S); k++ { j := S[k]; … buf[j]`: j is still an element of the list S
+			if ds := localDefs(info, fd.Body)[info.ObjectOf(j)]; len(ds) == 1 && ds[0] != nil {
+				if ex, ok := unparen(ds[0]).(*ast.IndexExpr); ok {
+					if sid, ok := unparen(ex.X).(*ast.Ident); ok && info.ObjectOf(sid) != nil {
+						r, isRangeVal = rng{nil, info.ObjectOf(sid)}, true
+					}
+				}
+			}
+		}
 		if !isRangeVal || r.s == nil {
 			return true
 		}
@@ -133,9 +143,12 @@ func (c *Ctx) rowBufCheck(info *types.Info, fd *ast.FuncDecl) int {
 		be, ok := unparen(size).(*ast.BinaryExpr)
 		var mobj types.Object
 		if ok && be.Op == token.ADD {
-			if m, ok := unparen(be.X).(*ast.Ident); ok {
-				if tv := info.Types[be.Y]; tv.Value != nil && tv.Value.ExactString() >= "1" && len(tv.Value.ExactString()) == 1 {
-					mobj = info.ObjectOf(m)
+			// M+k or k+M
+			for _, pr := range [][2]ast.Expr{{be.X, be.Y}, {be.Y, be.X}} {
+				if m, ok := unparen(pr[0]).(*ast.Ident); ok {
+					if tv := info.Types[pr[1]]; tv.Value != nil && tv.Value.ExactString() >= "1" && len(tv.Value.ExactString()) == 1 {
+						mobj = info.ObjectOf(m)
+					}
 				}
 			}
 		}
